@@ -81,3 +81,18 @@ def register(claim):
         'through unselected where-arms at switching points (excluded by the property).',
         'denominator/root-argument classification over the call graph + AVN helper contracts',
         'DESIGN.md §3 C03')
+
+  claim('C16', 'other',
+        'Static rule check over the 11 registered physics environments, PipelineEnv, the training '
+        'wrappers and the native pipelines: (R16.1) every call into an installed third-party '
+        'library binds that library\'s current signature; (R16.2/3) metrics/info pytree keys written '
+        'by step exist after reset, step returns state.replace of State fields, done starts as a '
+        'zero constructor; (R16.4) effect analysis: reset/step/_get_obs and the methods they call are '
+        'pure, sampler keys derive from the reset key by split; (R16.5/6) observation/action sizes '
+        'and the registry/backend tables agree; (R16.7) unit-quaternion typestate: every State a '
+        'native init/step returns has normalised x.rot / x_i.rot on every path.',
+        'Trusted: python ast, inspect.signature of installed libraries, typestate transfer functions; '
+        'assumes the incoming state of step has unit rotations (induction; init is checked).  Not '
+        'decided: finiteness of observations/rewards over 200-1000 step histories (numeric).',
+        'library-signature conformance + effect analysis + unit-quaternion typestate (abstract interpretation)',
+        'DESIGN.md §3 C16')
